@@ -12,6 +12,12 @@
       7 k              low_level::unregister(id returned by the k-th registration op of the script,
                        0-based, failed registrations counted; nothing to do if that one failed)
       8 sig k          low_level::register(sig, observer k)   (reports the flags when it runs)
+      9 sig k          low_level::register(sig, observer k that also raises sig again the first time it runs):
+                       the library's handler runs with its own signal blocked (no SA_NODEFER among its flags, C05),
+                       so the kernel keeps that signal pending until the handler has returned and delivers it then -
+                       one more complete delivery, before the raise of the script returns.  That kernel rule is
+                       the only thing this entry point adds to flag/Model.v ([deliver_chain]); standard signals only
+                       (two raises while blocked coalesce into one delivery).
     output  a log of records followed by one final record
       1 i res f0 .. f(n-1)   op number i completed; res = 1 for Ok(..)/true, 0 for Err/false/none
       2 k 0   f0 .. f(n-1)   observer k ran
@@ -22,7 +28,7 @@ From Coq Require Import ZArith List String Bool.
 From SH Require Import gen.Extracted_flag flag.Model.
 Import ListNotations. Open Scope Z_scope. Open Scope list_scope.
 
-Inductive xop := XOp (o : op) | XUnreg (k : Z) | XBad.
+Inductive xop := XOp (o : op) | XUnreg (k : Z) | XRaiser (s k : Z) | XBad.
 
 Fixpoint decode (fuel : nat) (l : list Z) : list xop :=
   match fuel with
@@ -39,6 +45,7 @@ Fixpoint decode (fuel : nat) (l : list Z) : list xop :=
       else if c =? 6 then match r with s :: f :: r' => XOp (OpRegister s (CondDefault f)) :: decode n r' | _ => [XBad] end
       else if c =? 7 then match r with k :: r' => XUnreg k :: decode n r' | _ => [XBad] end
       else if c =? 8 then match r with s :: k :: r' => XOp (OpRegister s (Observe k)) :: decode n r' | _ => [XBad] end
+      else if c =? 9 then match r with s :: k :: r' => XRaiser s k :: decode n r' | _ => [XBad] end
       else [XBad]
     end
   end.
@@ -62,31 +69,70 @@ Definition final_record (t : terminal) : list Z :=
   | Unmodelled => [9; 4; 0; 0]
   end.
 
+(** re-raising observers (op 9) that have not fired yet: (signal, k).  [fired sig evs armed] removes those of
+    [sig] that reported in [evs]; the flag says whether any did. *)
+Fixpoint fired (sig : Z) (evs : list event) (armed : list (Z * Z)) : list (Z * Z) * bool :=
+  match armed with
+  | [] => ([], false)
+  | (s0, k) :: r =>
+      let '(r', b) := fired sig evs r in
+      if (s0 =? sig) && existsb (fun e => match e with EvObserve k' _ => k' =? k end) evs
+      then (r', true) else ((s0, k) :: r', b)
+  end.
+
+(** one raise of the script: the delivery, and - if a re-raiser fired in it - the pending one after it *)
+Fixpoint deliver_chain (fuel : nat) (sig : Z) (s : state) (armed : list (Z * Z)) : state * list (Z * Z) * list event :=
+  let s' := step (OpDeliver sig) s in
+  let evs := new_events (tr (st_mem s)) (tr (st_mem s')) in
+  match fuel with
+  | O => (s', armed, evs)
+  | S f =>
+      match halted s' with
+      | Some _ => (s', armed, evs)
+      | None =>
+          let '(armed', again) := fired sig evs armed in
+          if again then let '(s2, a2, e2) := deliver_chain f sig s' armed' in (s2, a2, evs ++ e2)
+          else (s', armed', evs)
+      end
+  end.
+
 (** [ids]: results of the registration ops so far, newest first *)
-Fixpoint go (n : nat) (i : Z) (ops : list xop) (s : state) (ids : list (option (Z * Z))) : list Z :=
+Fixpoint go (n : nat) (i : Z) (ops : list xop) (s : state) (ids : list (option (Z * Z))) (armed : list (Z * Z)) : list Z :=
   match ops with
   | [] => [9; 0; 0; 0]
   | x :: rest =>
     match x with
     | XBad => [9; 5; 0; 0]
+    | XRaiser sig k =>
+        let '(s', r) := register_op sig (Observe k) s in
+        let entry := match r with Some id => Some (sig, id) | None => None end in
+        1 :: i :: bz (match r with Some _ => true | None => false end) :: snapshot n (fl (st_mem s'))
+          ++ go n (i + 1) rest s' (entry :: ids) (match r with Some _ => (sig, k) :: armed | None => armed end)
+    | XOp (OpDeliver sig) =>
+        let '(s', armed', es) := deliver_chain (S (List.length armed)) sig s armed in
+        let evs := flat_map (event_record n) es in
+        match halted s' with
+        | Some t => evs ++ final_record t
+        | None => evs ++ 1 :: i :: 0 :: snapshot n (fl (st_mem s')) ++ go n (i + 1) rest s' ids armed'
+        end
     | XUnreg k =>
         match nth_error (rev ids) (Z.to_nat k) with
         | Some (Some (sig, id)) =>
             let '(s', found) := unregister_op sig id s in
-            1 :: i :: bz found :: snapshot n (fl (st_mem s')) ++ go n (i + 1) rest s' ids
-        | _ => 1 :: i :: 0 :: snapshot n (fl (st_mem s)) ++ go n (i + 1) rest s ids
+            1 :: i :: bz found :: snapshot n (fl (st_mem s')) ++ go n (i + 1) rest s' ids armed
+        | _ => 1 :: i :: 0 :: snapshot n (fl (st_mem s)) ++ go n (i + 1) rest s ids armed
         end
     | XOp (OpRegister sig a) =>
         let '(s', r) := register_op sig a s in
         let entry := match r with Some id => Some (sig, id) | None => None end in
         1 :: i :: bz (match r with Some _ => true | None => false end) :: snapshot n (fl (st_mem s'))
-          ++ go n (i + 1) rest s' (entry :: ids)
+          ++ go n (i + 1) rest s' (entry :: ids) armed
     | XOp o =>
         let s' := step o s in
         let evs := flat_map (event_record n) (new_events (tr (st_mem s)) (tr (st_mem s'))) in
         match halted s' with
         | Some t => evs ++ final_record t
-        | None => evs ++ 1 :: i :: 0 :: snapshot n (fl (st_mem s')) ++ go n (i + 1) rest s' ids
+        | None => evs ++ 1 :: i :: 0 :: snapshot n (fl (st_mem s')) ++ go n (i + 1) rest s' ids armed
         end
     end
   end.
@@ -94,5 +140,5 @@ Fixpoint go (n : nat) (i : Z) (ops : list xop) (s : state) (ids : list (option (
 Definition run_c15 (inp : list Z) : list Z :=
   match inp with
   | [] => [9; 5; 0; 0]
-  | n :: l => go (Z.to_nat n) 0 (decode (List.length l) l) init []
+  | n :: l => go (Z.to_nat n) 0 (decode (List.length l) l) init [] []
   end.
